@@ -5,12 +5,20 @@ use crate::common::*;
 use crate::decgen::*;
 use serde_json::Value;
 
-fn check(out: &mut Out, op: &str, key: &str, v: &Value) {
+/// the keys of the range table below (`never_seen` and `run` keep the two in step)
+const RANGE_KEYS: &[&str] = &[
+    "track", "heading", "wind_direction", "selected_heading", "threat_bearing", "roll", "lat_cpr", "lon_cpr", "vertical_rate",
+    "vrate_barometric", "vrate_inertial", "groundspeed", "IAS", "TAS", "wind_speed", "Mach", "squawk", "humidity", "temperature",
+    "static_temperature", "callsign",
+];
+
+fn check(out: &mut Out, op: &str, ctx: &str, key: &str, v: &Value) {
     let bad = |out: &mut Out, why: &str| out.fail(&format!("out-of-range:{key}"), op, &format!("{key} = {v} ({why})"));
     if v.is_null() {
         return;
     }
     let num = v.as_f64();
+    let mut in_table = true;
     match key {
         "track" | "heading" | "wind_direction" | "selected_heading" | "threat_bearing" => match num {
             Some(x) if x.is_finite() && (0.0..360.0).contains(&x) => {}
@@ -56,24 +64,70 @@ fn check(out: &mut Out, op: &str, key: &str, v: &Value) {
             Some(s) if s.bytes().all(|c| c.is_ascii_uppercase() || c.is_ascii_digit() || c == b' ' || c == b'#') => {}
             _ => bad(out, "character outside the 6-bit set"),
         },
-        _ => {}
+        _ => in_table = false,
+    }
+    if in_table {
+        // a non-null value of a key of the range table was judged (audit e F6: see `never_seen`)
+        out.stat(&format!("rangekey:{key}"));
+        out.stat(&format!("rangepair:{ctx}:{key}"));
     }
 }
 
-fn walk(out: &mut Out, op: &str, v: &Value) {
+/// Audit e F6 — the range table is keyed on JSON key names: a key the decoder no longer writes (renamed field) would
+/// silently never be judged.  Every key of the table occurs, with a value, in every quick run of the accepted tree
+/// (measured, seeds 1, 2, 3: the rarest, `threat_bearing`, about 80 times, `selected_heading` 250, `humidity` 250), so
+/// none is exempt; a key that becomes legitimately rare goes into `RARE_KEYS` with the reason.
+const RARE_KEYS: &[&str] = &[];
+/// The same guard per message: (message, key) with message = the `bds` of the object holding the key (register of a
+/// Comm-B reply or type of an ADS-B message), else its `df`.  Three readers write `track`, three `groundspeed`, two
+/// `heading`, …: a key renamed in ONE of them is still seen from the others.  Listed: every pair that occurred at least
+/// 75 times in each quick run of the accepted tree (seeds 1, 2, 3; the rarest are `bds30:threat_bearing` 77–86,
+/// `bds44:humidity` 235–266, `bds62:selected_heading` 246–265, `bds09:IAS` 249–266).  Exempt because rare:
+/// `df5:squawk` (28 per run), `df20:lat_cpr`, `df20:lon_cpr` (15–24 per run) — judged when they occur, not required.
+const REQUIRED_PAIRS: &[&str] = &[
+    "bds05:lat_cpr", "bds05:lon_cpr", "bds06:groundspeed", "bds06:lat_cpr", "bds06:lon_cpr", "bds06:track", "bds08:callsign",
+    "bds09:IAS", "bds09:TAS", "bds09:groundspeed", "bds09:heading", "bds09:track", "bds09:vertical_rate", "bds20:callsign",
+    "bds30:threat_bearing", "bds44:humidity", "bds44:temperature", "bds44:wind_direction", "bds44:wind_speed",
+    "bds45:static_temperature", "bds50:TAS", "bds50:groundspeed", "bds50:roll", "bds50:track", "bds60:IAS", "bds60:Mach",
+    "bds60:heading", "bds60:vrate_barometric", "bds60:vrate_inertial", "bds61:squawk", "bds62:selected_heading", "df21:squawk",
+];
+fn never_seen(out: &Out) -> Vec<String> {
+    let mut v: Vec<String> = RANGE_KEYS
+        .iter()
+        .filter(|k| !RARE_KEYS.contains(k) && !out.stats.contains_key(&format!("rangekey:{k}")))
+        .map(|k| k.to_string())
+        .collect();
+    v.extend(REQUIRED_PAIRS.iter().filter(|p| !out.stats.contains_key(&format!("rangepair:{p}"))).map(|p| p.to_string()));
+    // … and the list of keys is the list of arms of `check`
+    for k in out.stats.keys().filter_map(|k| k.strip_prefix("rangekey:")) {
+        if !RANGE_KEYS.contains(&k) {
+            v.push(format!("{k} (an arm of the range table that RANGE_KEYS does not list)"));
+        }
+    }
+    v
+}
+
+/// `ctx`: which message the object is — its `bds` (register or ADS-B message type), else its `df`, else its parent's
+fn walk(out: &mut Out, op: &str, ctx: &str, v: &Value) {
     match v {
         Value::Object(o) => {
+            let own = match (o.get("bds").and_then(|x| x.as_str()), o.get("df").and_then(|x| x.as_str())) {
+                (Some(b), _) => format!("bds{b}"),
+                (None, Some(d)) => format!("df{d}"),
+                _ => ctx.to_string(),
+            };
+            let ctx = own.as_str();
             for (k, x) in o {
-                check(out, op, k, x);
+                check(out, op, ctx, k, x);
                 if let Some(f) = x.as_f64() {
                     if !f.is_finite() {
                         out.fail("non-finite", op, k);
                     }
                 }
-                walk(out, op, x);
+                walk(out, op, ctx, x);
             }
         }
-        Value::Array(a) => a.iter().for_each(|x| walk(out, op, x)),
+        Value::Array(a) => a.iter().for_each(|x| walk(out, op, ctx, x)),
         _ => {}
     }
 }
@@ -85,7 +139,7 @@ fn oracle(out: &mut Out, bytes: &[u8], op: &str) -> String {
         Dec::Json(j) => {
             out.stat(&format!("json:df{}", bytes[0] >> 3));
             if let Ok(v) = serde_json::from_str::<Value>(j) {
-                walk(out, op, &v);
+                walk(out, op, "-", &v);
             }
             // a non-finite float is printed as `null` by serde_json: look at the value itself
             if let Some(m) = &msg {
@@ -102,10 +156,39 @@ fn oracle(out: &mut Out, bytes: &[u8], op: &str) -> String {
 }
 
 pub fn one(out: &mut Out, line: &str) {
+    // `keyseen <key>`: replay of a `range-key-never-seen` failure — a whole quick run into a scratch directory
+    if let ["keyseen", k] = line.split_whitespace().collect::<Vec<_>>().as_slice() {
+        let mut scratch = Out::new(&format!("{}/keyseen", out.dir));
+        generate(&mut scratch, &mut Rng::new(1), false);
+        for missing in never_seen(&scratch).iter().filter(|m| m.split(' ').next() == Some(*k)) {
+            out.fail("range-key-never-seen", line, &format!("no accepted record of a quick run (seed 1) has a value under the key {missing}"));
+        }
+        return;
+    }
     crate::c01::one_with(out, line, oracle)
 }
 
 pub fn run(out: &mut Out, rng: &mut Rng, thorough: bool) {
+    // every listed key has an arm: each arm rejects a boolean
+    let mut scratch = Out::new(&format!("{}/selfcheck", out.dir));
+    for k in RANGE_KEYS {
+        check(&mut scratch, "selfcheck", "-", k, &Value::Bool(true));
+    }
+    if scratch.n_fail != RANGE_KEYS.len() as u64 {
+        out.fail("range-key-never-seen", "keyseen -", "RANGE_KEYS lists a key that has no arm in the range table");
+    }
+    generate(out, rng, thorough);
+    for k in never_seen(out) {
+        let key = k.split(' ').next().unwrap_or("-").to_string();
+        out.fail(
+            "range-key-never-seen",
+            &format!("keyseen {key}"),
+            &format!("no accepted record of this run has a value under the key {k}: its range is no longer checked (field renamed or no longer written?)"),
+        );
+    }
+}
+
+fn generate(out: &mut Out, rng: &mut Rng, thorough: bool) {
     crate::c01::run_with(out, rng, thorough, oracle);
     // boundary-biased 16-bit windows sliding over the MB field of Comm-B replies and the ME field
     let k = if thorough { 40 } else { 2 };
